@@ -132,7 +132,7 @@ int main(int argc, char** argv) {
     write_file(g_dir + "/in.osm", to_xml(g_data));
     write_pbf(g_dir + "/in.pbf", g_data, true);
     write_file(g_dir + "/in.o5m", to_o5m(g_data));
-    write_pbf(g_dir + "/inz.pbf", g_data, true, "zlib");
+    write_pbf(g_dir + "/inz.pbf", g_data, true, "zlib", true);      // zlib blobs, header declares Sort.Type_then_ID
     g_data_big = dataset_big();
     write_file(g_dir + "/inbig.opl", to_opl(g_data_big));
     write_file(g_dir + "/inbig.osm", to_xml(g_data_big));
@@ -175,6 +175,7 @@ int main(int argc, char** argv) {
         };
         if (std::string(fmt) == "pbf") cover.push_back({fmt, pool, "2", 7, false, true, false, true});
         if (std::string(fmt) == "pbf" && pool == 2) cover.push_back({"pbfz", pool, "2", 7, false, true, true, false});      // zlib blobs: two workers decompress at the same time (uncompress() is a scheduling point)
+        if (std::string(fmt) == "pbf" && pool == 2) cover.push_back({"pbfz", 3, "", 2, false, true, true, false});         // three workers, ways only, sorted file: blobs of unselected types come back empty and may finish in any order (seed C05f)
         { Cfg sc{fmt, pool, "2", 7, false, true, true, false}; sc.slow = true; cover.push_back(sc); }
         { Cfg bc{fmt, pool, "2", 7, false, true, true, false}; bc.big = true; cover.push_back(bc); }       // objects larger than the parser buffers
         { Cfg bc{fmt, pool, "3", 6, true, true, true, true}; bc.big = true; cover.push_back(bc); }         // ... with buffers_type::single and the node-less mask (a big way is the first selected object)      // pipeline ahead of the consumer: every queue full before each read()
